@@ -149,6 +149,7 @@ def handleMon (j : Json) : R Json := do
   | "scope" => pure (jBool (monScope c.cfg hits))
   | "threshold" => pure (jBool (monThreshold c.cfg hits))
   | "tier" => pure (jBool (monTier c.cfg c.tiers c.eps hits))
+  | "tier_par" => pure (jBool (monTierPar c.cfg c.tiers c.eps hits))
   | "order" => pure (jBool (monOrder c.cfg c.eps (← fldHits o "pre")))
   | "perm" =>
     pure (jBool (monPerm ((← fldHits o "pre").map (·.id)) (hits.map (·.id))))
